@@ -109,6 +109,67 @@ func VerifResp_Stalled() {
 	verifrt.Reached("end-stalled")
 }
 
+// VerifResp_StalledDropped (C25): the memory shared by all peers (not X's own
+// allowance) is what X's stalled connection exhausts; X's response waits for
+// memory.  Then X's connection times out for good and its message queue gives
+// up.  A request from peer Y - issued before that (so that it waits behind X)
+// or after it - is answered in full, and nothing stays reserved.
+func VerifResp_StalledDropped() {
+	verifrt.SetNativeQuiesceMs(350)
+	blocks := 3
+	has := []bool{true, true, true}
+	total := verifrt.U64("shared-memory")
+	verifrt.Assume(total >= 1 && total <= 4)
+	e := NewEnv(kit.Chain(blocks), has, 3, 0, total, 1<<40)
+	e.S.Net.NoFaults = true
+	pX, pY := peer.ID("peerX"), peer.ID("peerY")
+	gate := kit.NewGate()
+	e.S.Net.SendGate = map[peer.ID]*kit.Gate{pX: gate}
+	e.S.Net.Dead = map[peer.ID]bool{}
+	e.ReqVerdict[key{pX, kit.ReqID(0)}] = HookAccept
+	kY := key{pY, kit.ReqID(2)}
+	e.ReqVerdict[kY] = HookAccept
+	e.NewRequest(pX, 0)
+	Drain()
+	if e.S.Alloc.AllocatedForPeer(pX) == total {
+		verifrt.Cover("shared-memory-full")
+	}
+	// optionally a second response to X is under way too (and waits for memory as well)
+	if verifrt.Choose("x-second-request", 2) == 1 {
+		e.ReqVerdict[key{pX, kit.ReqID(1)}] = HookAccept
+		e.NewRequest(pX, 1)
+		Drain()
+	}
+	yFirst := verifrt.Choose("y-asks-before-x-is-dropped", 2) == 1
+	if yFirst {
+		e.NewRequest(pY, 2)
+		Drain()
+	}
+	// X's connection is given up: the pending send fails and so does every retry
+	e.S.Net.Dead[pX] = true
+	e.S.PMM.Disconnected(pX)
+	gate.Open()
+	Drain()
+	verifrt.Eventf("after drop: x %s exited=%v held=%d", e.Outcome(key{pX, kit.ReqID(0)}), len(e.S.Exited), e.S.Alloc.AllocatedForPeer(pX))
+	if len(e.S.Exited) > 0 {
+		verifrt.Cover("x-dropped")
+	}
+	if !yFirst {
+		e.NewRequest(pY, 2)
+		Drain()
+	}
+	served := len(e.Completed[kY]) == 1 && e.Completed[kY][0] == graphsync.RequestCompletedFull
+	verifrt.Eventf("y first=%v: hooks=%d %s", yFirst, e.ReqHookCalls[kY], e.Outcome(kY))
+	verifrt.Assert(e.ReqHookCalls[kY] == 1, "C25 a request from another peer was not even processed after a stalled peer was dropped")
+	verifrt.Assert(served, "C25 a request from another peer was not answered after a stalled peer was dropped")
+	if served {
+		verifrt.Cover("y-served")
+	}
+	st := e.S.Alloc.Stats()
+	verifrt.Assert(st.TotalAllocatedAllPeers == 0, "C25/C13 memory still reserved after the stalled peer was dropped and every other response was sent")
+	verifrt.Reached("end-stalled-dropped")
+}
+
 const (
 	stateNone   = graphsync.RequestState(255)
 	stateFrozen = graphsync.RequestState(254) // the manager loop does not answer
